@@ -15,6 +15,7 @@ SPEC = {
               21: "4xx answer (nothing failed in the cluster) but a cluster operation was performed", 22: "answer without exactly the operation the route names / malformed part not refused",
               23: "body is not a single JSON document", 24: "5xx answer without a failing cluster call", 30: "client call did not arrive with the arguments it was given",
               31: "client did not return what the server answered"},
+    "tags": {1: "client-pinpath-recover-shadowed"},
     "trusted": ["harness/api_rest/c11_rig_test.go: recording Cluster/PeerMonitor/IPFSConnector RPC services behind the real NewAPI",
                 "net/http, gorilla/mux cleanPath, rs/cors, net/url, go-cid, go-path, peer.Decode, PinOptions.FromQuery, AddParamsFromQuery, TrackerStatusFromString: outcomes are inputs of the model",
                 "tools/gen/restroutes.go, tools/gen/restclient.go (syntactic translators)"],
